@@ -31,7 +31,9 @@ fn main() {
             if shard == 0 {
                 witness::run_witnesses("C03");
             }
-            let p = hist::Profile::base("C03");
+            let mut p = hist::Profile::base("C03");
+            p.bystander = atom.as_deref() != Some("nobystander");
+            p.tainting_deletes = atom.as_deref() != Some("notaint");
             hist::run_profile(&p, seed, shard, if tier == "thorough" { 8000 } else { 600 });
         }
         "C07" => {
@@ -52,6 +54,8 @@ fn main() {
             let mut p = hist::Profile::base("C09");
             p.flush = true;
             p.reopen = true;
+            p.burn = atom.as_deref() != Some("noburn");
+            p.bystander = atom.as_deref() != Some("nobystander");
             p.configs = vec![dbx::default_cfg(), dbx::cfg(4096, 64, 2, 3, 2), dbx::cfg(4096, 1000, 16, 4, 3), dbx::cfg(8192, 200, 4, 3, 1)];
             hist::run_profile(&p, seed, shard, if tier == "thorough" { 4000 } else { 300 });
         }
